@@ -61,6 +61,7 @@ Definition lit_byte (s : string) : option byte :=
   match s with
   | String "'"%char (String c (String "'"%char EmptyString)) =>
       if Ascii.eqb c "\"%char then None else Some (N_of_ascii c)
+  | String "'"%char (String "\"%char (String "\"%char (String "'"%char EmptyString))) => Some 92
   | String "'"%char (String "\"%char (String "0"%char (String "'"%char EmptyString))) => Some 0
   | String "'"%char (String "\"%char (String "x"%char (String "0"%char (String "0"%char (String "'"%char EmptyString))))) => Some 0
   | _ => None      (* e.g. the bare space emitted for FixedStringPadFromLeft without a pad char *)
